@@ -1,6 +1,7 @@
 package main
 
 import (
+	"go/token"
 	"go/types"
 	"strings"
 
@@ -262,25 +263,7 @@ func checkC03(c *Check) {
 		}
 		c.Ob("R4", "mutations in "+fnName(fn)+" dominated by "+g.typ+".State==Open", pos, ok && n > 0, "a closed/overdrawn "+g.typ+" can still be mutated (accrue, pay out or close again)")
 	}
-	// PaymentCreate: writes dominated by ok-edge of settle core (which checks the account is open)
-	{
-		fn := l.Func("x/escrow/keeper", "keeper", "PaymentCreate")
-		var sc *ssa.Call
-		for _, call := range callsIn(fn, false) {
-			if call.Common().StaticCallee() == settle {
-				sc = call.(*ssa.Call)
-			}
-		}
-		ok := sc != nil
-		for _, call := range callsIn(fn, false) {
-			if isMutation(call, mut) && call != ssa.CallInstruction(sc) {
-				if sc == nil || !okEdgeAt(call.Block(), sc) {
-					ok = false
-				}
-			}
-		}
-		c.Ob("R4", "PaymentCreate writes only after a successful settle of an open account", fn.Pos(), ok, "a payment can be created on a closed account / without settling first")
-	}
+	c.paymentCreateGuards("R4", settle, mut)
 	// accountOpenPayments filters on PaymentOpen
 	{
 		fn := l.Func("x/escrow/keeper", "keeper", "accountOpenPayments")
@@ -773,6 +756,70 @@ func (c *Check) statePersistedRule(rule string, kfuncs []*ssa.Function) {
 					ok = false
 					detail = "a path from the state assignment to the nil-error return at " + l.Pos(r.Pos()) + " does not persist the object (callees that skip the write on some success path do not count)"
 				}
+				// a callee that persists only when it succeeds does not count on the path where it failed
+				eachInstr(fn, func(pi ssa.Instruction) {
+					pc, isCall := pi.(*ssa.Call)
+					if !isCall || !pred(pi) || isStoreSet(pc) || errResultIndex2(pc) < 0 {
+						return
+					}
+					checked := false
+					for _, rr := range *pc.Referrers() {
+						var errV ssa.Value = pc
+						if ex, isEx := rr.(*ssa.Extract); isEx {
+							errV = ex
+						}
+						if errV.Referrers() == nil {
+							continue
+						}
+						for _, r2 := range *errV.Referrers() {
+							switch y := r2.(type) {
+							case *ssa.BinOp:
+								if y.Referrers() != nil {
+									for _, r3 := range *y.Referrers() {
+										if _, isIf := r3.(*ssa.If); isIf {
+											checked = true
+										}
+									}
+								}
+							case *ssa.Return, *ssa.Store, *ssa.Phi, *ssa.MakeInterface, *ssa.Call:
+								checked = true // handed on
+							}
+						}
+					}
+					if !checked && reachableFrom(pi, r) {
+						ok = false
+						detail = "the error of " + calleeMethod(pc) + " at " + l.Pos(pc.Pos()) + " is not examined: when it fails (it stores the object only on success) the function still reports success and the state change is lost"
+					}
+					for _, rr := range *pc.Referrers() {
+						var errV ssa.Value = pc
+						if ex, isEx := rr.(*ssa.Extract); isEx {
+							errV = ex
+						}
+						if errV.Referrers() == nil {
+							continue
+						}
+						for _, r2 := range *errV.Referrers() {
+							bo, isBO := r2.(*ssa.BinOp)
+							if !isBO || bo.Op != token.NEQ || !isNilConst(bo.Y) || bo.Referrers() == nil {
+								continue
+							}
+							for _, r3 := range *bo.Referrers() {
+								ifi, isIf := r3.(*ssa.If)
+								if !isIf {
+									continue
+								}
+								fail := ifi.Block().Succs[0]
+								first := fail.Instrs[0]
+								// the failed call itself, met again in a later loop iteration, concerns another element
+								other := func(in ssa.Instruction) bool { return in != pi && pred(in) }
+								if (fail == r.Block() || blockReaches(fail, r.Block())) && !other(first) && !mustPassFrom(fn, first, r, other) {
+									ok = false
+									detail = "when " + calleeMethod(pc) + " fails at " + l.Pos(pc.Pos()) + " the function still returns nil at " + l.Pos(r.Pos()) + " without having stored the object: the state change is lost while callers see success"
+								}
+							}
+						}
+					}
+				})
 			}
 			if n == 0 {
 				ok = false
@@ -798,4 +845,60 @@ func freshRecord(a *ssa.Alloc) bool {
 		}
 	}
 	return true
+}
+
+// paymentCreateGuards: PaymentCreate stores only after a successful settlement that did not overdraw the account
+// (shared: C03-R4, C05-R4 — a payment stream opened on an account that the same call just closed is open forever).
+func (c *Check) paymentCreateGuards(rule string, settle *ssa.Function, mut map[*ssa.Function]bool) {
+	l := c.L
+
+	fn := l.Func("x/escrow/keeper", "keeper", "PaymentCreate")
+	var sc *ssa.Call
+	if scs := settleCallsIn(l, fn, settle); len(scs) > 0 {
+		sc = scs[0]
+	}
+	ok := sc != nil
+	okOD := sc != nil
+	if sc != nil {
+		// index of the callee's "overdrawn" result
+		bi := -1
+		res := sc.Call.Signature().Results()
+		for i := 0; i < res.Len(); i++ {
+			if b, isB := res.At(i).Type().(*types.Basic); isB && b.Kind() == types.Bool {
+				bi = i
+			}
+		}
+		for _, call := range callsIn(fn, false) {
+			if !isMutation(call, mut) || call == ssa.CallInstruction(sc) || call.Parent() != fn {
+				continue
+			}
+			if !okEdgeAt(call.Block(), sc) {
+				ok = false
+			}
+			notOD := false
+			for _, a := range factsAt(call.Block()) {
+				if a.Op == "false" {
+					if ex, isEx := a.X.(*ssa.Extract); isEx && ex.Tuple == ssa.Value(sc) && ex.Index == bi {
+						notOD = true
+					}
+				}
+			}
+			if !notOD {
+				okOD = false
+			}
+		}
+	}
+	c.Ob(rule, "PaymentCreate writes only when that settlement did not overdraw the account", fn.Pos(), okOD, "the settlement's overdrawn result is not tested before the new payment is stored: an open payment can be attached to an account the settlement just closed as overdrawn")
+	c.Ob(rule, "PaymentCreate writes only after a successful settle of an open account", fn.Pos(), ok, "a payment can be created on a closed account / without settling first")
+}
+
+// errResultIndex2: index of the error result of the call's signature, -1 if none.
+func errResultIndex2(c *ssa.Call) int {
+	res := c.Call.Signature().Results()
+	for i := 0; i < res.Len(); i++ {
+		if res.At(i).Type().String() == "error" {
+			return i
+		}
+	}
+	return -1
 }
